@@ -127,3 +127,18 @@ def udf_name(serial, size, lead, salt=0):
         n = [5, 12, 100, 253, 254][size % 5]
         s = (p + b36(serial).lower() + _fill(alpha, n, salt))[:n]
     return s.rstrip(' ') or ('u' + b36(serial))
+
+
+def exact_iso_file(serial, total_len, lead):
+    """File identifier of exactly total_len characters (incl. '.;1'), legal at every level for
+    7 <= total_len <= 11 (name part 4..8 characters, empty extension)."""
+    n = max(4, total_len - 3)
+    core = D1[lead % 37] + b36(serial)
+    return (core + _fill(D1, n, serial))[:n] + '.;1'
+
+
+def exact_plain(serial, n, lead):
+    """Joliet/UDF/Rock Ridge name of exactly n ASCII characters (n >= 4)."""
+    alpha = 'abcdefghijklmnopqrstuvwxyz0123456789'
+    n = max(4, n)
+    return (alpha[lead % 26] + b36(serial).lower() + _fill(alpha, n, serial))[:n]
